@@ -81,7 +81,6 @@ class StepMeter:
             _mon.free_tool_id(_TOOL)
             _mon.use_tool_id(_TOOL, "verif-stepmeter")
         _mon.register_callback(_TOOL, _mon.events.LINE, self._line)
-        _mon.set_events(_TOOL, _mon.events.LINE)
         self.installed = True
 
     def _line(self, code, lineno):
@@ -103,10 +102,13 @@ class StepMeter:
         self.tripped = False
         self.where = None
         self.active = True
+        _mon.set_events(_TOOL, _mon.events.LINE)
 
     def end(self) -> int:
-        self.active = False
-        self.total += self.count
+        if self.active:
+            self.active = False
+            _mon.set_events(_TOOL, 0)
+            self.total += self.count
         return self.count
 
 
@@ -198,7 +200,7 @@ def guarded(fn, nchars: int) -> Outcome:
         return Outcome("exc", exc=e, where=innermost_pvl_frame(e),
                        steps=steps)
     finally:
-        METER.active = False
+        METER.end()
 
 
 # --------------------------------------------------------------------------
@@ -211,22 +213,26 @@ _Quantity = pvl.collections.Quantity
 _Empty = pvl.parser.EmptyValueAtLine
 
 
-def canon(v):
+def canon(v, _d=0):
     """Type-exact canonical form (nested tuples, JSON-able after listify)."""
+    if _d > 24:
+        return ("too-deep-or-cyclic",)
     if isinstance(v, _OMD):
-        return (type(v).__name__, tuple((k, canon(x)) for k, x in list(v)))
+        return (type(v).__name__,
+                tuple((k, canon(x, _d + 1)) for k, x in list(v)))
     if isinstance(v, _Quantity):
-        return ("Quantity", canon(v.value), ("str", str(v.units)))
+        return ("Quantity", canon(v.value, _d + 1), ("str", str(v.units)))
     if isinstance(v, list):
-        return ("list", tuple(canon(x) for x in v))
+        return ("list", tuple(canon(x, _d + 1) for x in v))
     if isinstance(v, tuple):
-        return ("tuple", tuple(canon(x) for x in v))
+        return ("tuple", tuple(canon(x, _d + 1) for x in v))
     if isinstance(v, (set, frozenset)):
-        return ("set", tuple(sorted((canon(x) for x in v), key=repr)))
+        return ("set", tuple(sorted((canon(x, _d + 1) for x in v),
+                                    key=repr)))
     if isinstance(v, _Empty):
         return ("empty", v.lineno)
     if isinstance(v, dict):
-        return ("dict", tuple((k, canon(x)) for k, x in v.items()))
+        return ("dict", tuple((k, canon(x, _d + 1)) for k, x in v.items()))
     if v is None:
         return ("none",)
     if isinstance(v, bool):
@@ -244,6 +250,33 @@ def canon(v):
     if isinstance(v, _dt.time):
         return ("time", v.isoformat())
     return (type(v).__name__, repr(v))
+
+
+def short(v, depth=3):
+    """Depth-limited repr that never calls pvl's own __repr__ (a damaged
+    container may be cyclic)."""
+    if isinstance(v, _OMD):
+        if depth <= 0:
+            return type(v).__name__ + "(...)"
+        try:
+            items = list(v)
+        except Exception as e:  # noqa: BLE001
+            return "%s(<iteration raised %s>)" % (type(v).__name__,
+                                                  type(e).__name__)
+        return "%s[%s]" % (type(v).__name__, ", ".join(
+            short(i, depth - 1) for i in items[:12]) + (
+                ", ...+%d" % (len(items) - 12) if len(items) > 12 else ""))
+    if isinstance(v, (list, tuple, set, frozenset)):
+        if depth <= 0:
+            return "[...]"
+        o, c = ("(", ")") if isinstance(v, tuple) else (
+            ("[", "]") if isinstance(v, list) else ("{", "}"))
+        return o + ", ".join(short(i, depth - 1) for i in list(v)[:12]) + c
+    try:
+        r = repr(v)
+    except Exception as e:  # noqa: BLE001
+        r = "<repr raised %s>" % type(e).__name__
+    return r if len(r) < 80 else r[:77] + "..."
 
 
 def listify(x):
